@@ -15,6 +15,9 @@ package main
 //	               content types                                              (c07_text_doconly_iff)
 //	(false,false)  a permitted content type on a document-only rule           (c07_text_content_type_doc_tie)
 //	(false,false)  ,dnsrewrite=…                                              (decided example)
+//
+// Two lines in five come from op_p1_c07exact.go (group P1): `,document`, `,~extension`, a repeated modifier, a
+// list-valued modifier written again, one more value in a list-valued modifier (theorems of Props/C07TextExact.lean).
 
 import (
 	"bufio"
@@ -75,6 +78,15 @@ func lTypeSet(ms []lMod, neg bool) map[string]bool {
 func genLC07Text(r *rng, n int, w *bufio.Writer) {
 	r = eReseed(r)
 	for i := 0; i < n; {
+		if r.chance(2, 5) {
+			// group P1: `document`, `~extension`, repeated modifiers, extra values (op_p1_c07exact.go;
+			// expected answers per the theorems of lean/UF/Props/C07TextExact.lean)
+			if p1C07Exact(r, w) {
+				i++
+			}
+
+			continue
+		}
 		exc := r.chance(1, 2)
 		pat := pick(r, lPoolPatterns)
 		ms := lGenMods(r, exc)
